@@ -187,6 +187,10 @@ def random_name(rng, used):
     alphabet = "abcXYZ_09z"
     while True:
         s = "".join(rng.choice(alphabet) for _ in range(rng.randrange(1, 6)))
+        if used and rng.random() < 0.3:
+            # a name that differs from an existing one only by the case of its letters (x / X, sigma / Sigma): distinct variables
+            t = rng.choice(sorted(used))
+            s = rng.choice([t.swapcase(), t.upper(), t.lower(), t.capitalize()])
         if s not in used:
             used.add(s)
             return s
@@ -299,9 +303,11 @@ def run(chk: core.Check):
         if res[0] == "ok" and len(names) > 1 and (tag.startswith("random") or tag.startswith("model") or len(names) == 3):
             sh = names[:]
             rng.shuffle(sh)
-            res2 = run_impl(env, names, anc, insertion_order=sh)
-            if res2 != res:
-                chk.impl_failure(cj, f"result depends on the insertion order of the definitions ({sh})")
+            for other in (sh, names[::-1]):
+                res2 = run_impl(env, names, anc, insertion_order=other)
+                if res2 != res:
+                    chk.impl_failure(cj, f"result depends on the insertion order of the definitions ({other})")
+                    break
         line, ranked = to_line(names, anc)
         lines.append(line)
         impl_canon.append(canon_impl(res, ranked))
